@@ -178,6 +178,13 @@ def biased_doc(rng, size, samebare=False):
             a.schema = 'sh_' + a.name
         b.alias = a.name
         return doc
+    if samebare == 'selfalias':
+        # a table outside public whose alias is spelled like its own bare name: `name.col` addresses it through the alias
+        a = doc.tables[0]
+        if a.schema == 'public':
+            a.schema = 'sa_' + a.name
+        a.alias = a.name
+        return doc
     if samebare and len(doc.tables) >= 2:
         a, b = doc.tables[0], doc.tables[1]
         if a.schema == b.schema:
@@ -200,11 +207,12 @@ def run_shard(spec, tier, seed, budget_s):
     with monitors.ReachMonitor() as reach:
         while k < target and not sh.out_of_time():
             k += 1
-            samebare = rng.choice([False, False, False, False, False, False, True, True, 'aliasshadow', 'aliasshadow-public'])
+            samebare = rng.choice([False, False, False, False, False, False, True, True, 'aliasshadow', 'aliasshadow-public', 'selfalias'])
             doc = biased_doc(rng, 'large' if k <= 2 else rng.choice(['small', 'medium', 'medium'] + (['large'] if tier == 'thorough' else [])), samebare)
             suite = samebare if isinstance(samebare, str) else ('samebare' if samebare else 'random')
             for s in range(nst):
-                text = surface.render(doc, f'{seed}-{i}-{k}-{s}', {'addr': 'explicit'} if samebare == 'aliasshadow-public' else None)
+                text = surface.render(doc, f'{seed}-{i}-{k}-{s}', {'addr': 'explicit'} if samebare == 'aliasshadow-public' else
+                                      {'addr': 'alias'} if samebare == 'selfalias' and s == 0 else None)
                 feats = gen.features(doc)
                 sh.case(text, nontrivial=bool(feats & {'ref', 'inline_ref', 'index', 'type_enum', 'group'}),
                         sample={'suite': suite, 'text': text[:1200]})
